@@ -172,9 +172,11 @@ DETAILED_GEN = {"nCycles": (1, 2), "k0": (0, 2), "k1": (0, 2), "k2": (0, 2), "n0
                 "d20": (0.5, 90.0), "d21": (0.5, 90.0), "d22": (0.5, 90.0)}
 
 
-def detailed_case(nCycles, kinds, ns, L, a, d):
+def detailed_case(nCycles, kinds, ns, L, a, d, zeroAvailability=False):
     for c in range(nCycles):
-        assume(L[c] >= 0 and 0 < a[c] and a[c] <= 1)
+        # an availability of exactly 0 only where the cycle LENGTH is given (kind 0): for step days / cumulative days the
+        # cycle length is sum(steps) / availability, which has no value (the input contradicts itself unless all days are 0)
+        assume(L[c] >= 0 and (0 <= a[c] if zeroAvailability and kinds[c] == 0 else 0 < a[c]) and a[c] <= 1)
     cs = {"cycles": [detailed_cycle(kinds[c], ns[c], L[c], a[c], d[c]) for c in range(nCycles)], "nCycles": nCycles}
     steps = utils.getStepLengths(cs)
     lengths = utils.getCycleLengths(cs)
@@ -187,7 +189,10 @@ def detailed_case(nCycles, kinds, ns, L, a, d):
     for c in range(nCycles):
         assert bs[c] == ns[c] and len(steps[c]) == ns[c] and npc[c] == bs[c] + 1, "burn steps + 1 = nodes"
         assert eq(avail[c], a[c])
-        assert eq(sum(steps[c]), avail[c] * lengths[c]), "step lengths sum to availability x cycle length"
+        # a cycle WITHOUT burn steps (only in the ..._without_burn_steps_or_availability lemma) has no step lengths to sum: its
+        # given cycle length is kept as it is, and a cycle given by 0 step days / cumulative days has length 0
+        assert eq(sum(steps[c]), avail[c] * lengths[c]) or (ns[c] == 0 and kinds[c] == 0), "step lengths sum to availability x cycle length"
+        assert ns[c] > 0 or steps[c] == [], "no burn steps: no step lengths"
         assert eq(fracs[c], [1] * ns[c]), "full power unless power fractions are given"
         if kinds[c] == 0:
             assert eq(lengths[c], L[c]), "the given cycle length"
@@ -195,8 +200,20 @@ def detailed_case(nCycles, kinds, ns, L, a, d):
                 assert eq(s * ns[c], a[c] * L[c]), "equal steps"
         else:
             assert eq(steps[c], d[c][: ns[c]]), "the given step days / the differences of the cumulative days"
-    assert utils.getMaxBurnSteps(cs) == max(ns) and utils.hasBurnup(cs)
+    assert utils.getMaxBurnSteps(cs) == max(ns) and utils.hasBurnup(cs) == (max(ns) > 0)
     assert utils.getCumulativeNodeNum(nCycles - 1, ns[nCycles - 1], cs) == sum(ns) + nCycles - 1, "last node of the run"
+
+
+@lemma(gen=dict(DETAILED_GEN, n0=(0, 2), n1=(0, 2), a0=[0.0, 0.0, 0.5, 1.0], a1=[0.0, 0.5, 1.0]))
+def detailed_history_with_cycles_without_burn_steps_or_availability(nCycles: int, k0: int, k1: int, n0: int, n1: int, L0: float, L1: float, a0: float, a1: float,
+                                                                    d00: float, d01: float, d10: float, d11: float):
+    """the lemma below for the schema-valid shapes it leaves out (they raised ZeroDivisionError before the fix of F167 /
+    F168): 1..2 cycles in each of the 3 ways with 0..2 burn steps - a cycle WITHOUT steps has one node and an empty
+    step list, in every position - and an availability factor of exactly 0 for a cycle given by length + burn steps."""
+    nCycles = choose(nCycles, 1, 2)
+    kinds = [choose(k0, 0, 2), choose(k1, 0, 2) if nCycles > 1 else 0][:nCycles]
+    ns = [choose(n0, 0, 2), choose(n1, 0, 2) if nCycles > 1 else 1][:nCycles]
+    detailed_case(nCycles, kinds, ns, [L0, L1], [a0, a1], [[d00, d01], [d10, d11]], True)
 
 
 @lemma(gen=DETAILED_GEN)
